@@ -5,8 +5,10 @@ package repository
 // in-memory kit.Store inside a testing/synctest bubble, so that the real
 // 200 ms / 5 min / 22.5 min / 30 min constants run in virtual time.  Every
 // lock-file backend operation of a process is a gate: it blocks until the
-// schedule releases it ("step"), or until the stall budget of the process is
-// used up (premise of C12: no process stalls longer than the staleness margin).
+// schedule releases it ("step"), or until the stall budget of the process (5 min
+// in total) is used up (premise of C12: no process stalls longer than the
+// staleness margin); without budget an operation still waits for its turn, but
+// no virtual time passes while it waits.
 // After every schedule step, after every mutating lock-file operation and at
 // the instant a lock context is cancelled the harness records an observation
 // (lock directory + what every process believes); TLC judges the records
@@ -85,8 +87,6 @@ type vlProc struct {
 	newest       int64 // time (ms) of the newest lock file this process saved, -1 if none
 	faulted      bool  // a Save/Remove fault was ever injected for this process
 	logs         []string
-	acqStart     time.Time
-	acqEnd       time.Time
 }
 
 type vlFileInfo struct {
@@ -112,7 +112,6 @@ type vlEnv struct {
 	master   *Repository
 	procs    []*vlProc
 	byName   map[string]*vlProc
-	urepo    *Repository
 	t0       time.Time
 	drain    bool
 	sleeping bool
@@ -476,14 +475,12 @@ func (e *vlEnv) startLock(p *vlProc, excl bool) {
 	p.excl = excl
 	pctx, cancel := context.WithCancel(context.Background())
 	p.parentCancel = cancel
-	p.acqStart = time.Now()
 	e.mu.Unlock()
 	e.wg.Add(1)
 	go func() {
 		defer e.wg.Done()
 		unlock, wctx, err := lockerInst.Lock(pctx, p.repo, excl, 0, func(string) {}, e.logf(p))
 		e.mu.Lock()
-		p.acqEnd = time.Now()
 		if err != nil {
 			if !p.dead {
 				p.state = "failed"
